@@ -427,6 +427,20 @@ func readerReuse(c *dctx, docs []docFile, dir string) {
 		os.WriteFile(p, pdfw.SimplePDF(pages), 0o644)
 		pool = append(pool, docFile{p, "pdf", "PDF with one page whose content stream cannot be decoded"})
 	}
+	// PDFs whose page tree names a page object the file does not have (a dangling
+	// /Kids entry between readable pages): what a reader answers about such a file
+	// is its business, but it answers the same on every call
+	for i := 0; i < c.N(4, 16); i++ {
+		r := c.Rand("reuse-ghostkid", i)
+		g := pdfw.GenDoc(r, pdfw.DocOpts{MinPages: 3, MaxPages: 5, MaxLines: 5, MaxFonts: 2, TreeDepth: 1 + i%2, Inherit: "leaf", NoEmptyPages: true})
+		leaves := g.Doc.Leaves()
+		lay := pdfw.BaselineLayout()
+		lay.Omit = []string{fmt.Sprintf("page:%d", leaves[1+r.Intn(len(leaves)-1)].Node.ID)}
+		b := pdfw.Build(r.Int63(), lay, []*pdfw.Doc{g.Doc})
+		p := filepath.Join(dir, fmt.Sprintf("reuseghostkid%03d.pdf", i))
+		os.WriteFile(p, b.Bytes, 0o644)
+		pool = append(pool, docFile{p, "pdf", "PDF whose page tree has a dangling /Kids entry"})
+	}
 	// PDFs with a page whose /Contents array names an object the file does not have
 	// between two streams that continue one text object: whatever the reader makes of
 	// that page, it makes the same of it every time
